@@ -11,8 +11,8 @@ type SecurityRequirements []SecurityRequirement
 func NewSecurityRequirements(s openapi3.SecurityRequirements, schemes SecuritySchemes) ([]SecurityRequirement, error) {
 	out := make([]SecurityRequirement, 0, len(s))
 	for _, sr := range s {
-		for k, v := range sr {
-			ss, err := NewSecurityRequirement(k, v, schemes)
+		for _, k := range sortedKeys(sr) {
+			ss, err := NewSecurityRequirement(k, sr[k], schemes)
 			if err != nil {
 				return nil, fmt.Errorf("new security requirements %q: %w", k, err)
 			}
